@@ -106,6 +106,15 @@ def to_lib(obj):
     return stix2.parse(copy.deepcopy(obj), allow_custom=True)
 
 
+def require_accepted(objs):
+    """The stored objects are meant to be valid STIX that the library accepts on its own; if it refuses one, the
+    generator has left the domain (or parsing is broken, which is C03's business): harness error, never a violation."""
+    for o in objs:
+        _, exc = core.guarded(to_lib, o)
+        if exc is not None:
+            raise core.HarnessError("population object refused by stix2.parse (generator outside the domain?): %s -- %s" % (core.fmt_exc(exc), core.short(o, 400)))
+
+
 def to_dt(text):
     t = M.instant(text)
     days, rem = divmod(t, tsref.US_PER_DAY)
@@ -261,6 +270,14 @@ def selftest():
                     extra = set(p.keys()) - set(o.keys())
                     if extra:
                         raise core.HarnessError("pool template %s: library adds implicit members %s" % (t, sorted(extra)))
+        for rt in ("relationship20", "relationship21"):
+            for t in G.NODE_TEMPLATES:
+                if rt == "relationship20" and G.TEMPLATES[t][2] in ("sco", "unreg-obs"):
+                    continue
+                o = G.build(rt, 0, "1000-01-01T00:00:00.000Z", "2020-01-01T00:00:01.500Z", 1, True, {"source_ref": G.slot_id(t, 0), "target_ref": G.slot_id(t, 1)})
+                _, exc = core.guarded(to_lib, o)
+                if exc is not None:
+                    raise core.HarnessError("%s with %s endpoints refused by the library: %s" % (rt, t, core.fmt_exc(exc)))
     from stix2 import registry
     if registry.class_for_type("x-verif-widget", "2.1") is not None:
         raise core.HarnessError("registry not restored")
